@@ -148,6 +148,7 @@ def edits(prog):
                 yield "delete-paren:" + s.kind, "line %d %r: delete %r at %d" % (i + 1, s.line(), s.text[pj], pj), text_of(prog[:i] + [s.copy(text=s.text[:pj] + s.text[pj + 1 :])] + prog[i + 1 :])
                 yield "duplicate-paren:" + s.kind, "line %d %r: duplicate %r at %d" % (i + 1, s.line(), s.text[pj], pj), text_of(prog[:i] + [s.copy(text=s.text[:pj] + s.text[pj] + s.text[pj:])] + prog[i + 1 :])
     # insertions at every position
+    anon_at = next((i for i, s in enumerate(prog) if getattr(s, "kind", None) == "program_anon"), None)
     for p in range(n + 1):
         inner = stacks[p][-1] if stacks[p] else None
         inner_fam = family(inner) if inner is not None else None
@@ -160,6 +161,10 @@ def edits(prog):
                 continue
             yield "insert-end:%s|in:%s" % (fam, inner_fam), "insert %r before line %d (innermost open: %s)" % (endtext, p + 1, inner_fam), text_of(prog[:p] + [endtext] + prog[p:])
         for op in OPENERS:
+            if anon_at is not None and p <= anon_at + 1 and op.split()[0] in ("program", "subroutine", "function"):
+                # EXCLUSION: a PROGRAM / SUBROUTINE / FUNCTION statement in front of a main
+                # program that has none gives a valid unit (its bare END closes any of them)
+                continue
             yield "insert-opener:" + op.split()[0].rstrip(","), "insert %r before line %d" % (op, p + 1), text_of(prog[:p] + [op] + prog[p:])
 
 
